@@ -6,6 +6,7 @@ package main
 
 import (
 	"go/ast"
+	"go/token"
 	"go/types"
 	"regexp"
 	"sort"
@@ -397,7 +398,13 @@ func (s *Site) argExpr(info *types.Info, i int) ast.Expr {
 	if i >= len(s.Call.Args) {
 		return nil
 	}
-	e := unparen(s.Call.Args[i])
+	return s.mapExpr(info, s.Call.Args[i])
+}
+
+// mapExpr maps an expression written at the site back into the root function's frame as far
+// as it is a bare parameter of the helpers the site sits in.
+func (s *Site) mapExpr(info *types.Info, e ast.Expr) ast.Expr {
+	e = unparen(e)
 	for lvl := len(s.Inl) - 1; lvl >= 0; lvl-- {
 		id, ok := e.(*ast.Ident)
 		if !ok {
@@ -492,4 +499,45 @@ func (m *ServerModel) reachedOnlyFrom(key string, allowed map[string]bool) (bad 
 // (a guard may sit in a private helper and answer from there).
 func (m *ServerModel) exitsDeep(fi *FuncInfo) []*ExitRec {
 	return append(append([]*ExitRec{}, m.DB.Exits[fi]...), m.DB.DeepExits[fi]...)
+}
+
+// sitesInOrder lists the call sites that run as part of root - its own and those inside
+// helpers analysed in place - in source order of the statements of root (a helper's sites
+// take the position of the call that enters the helper), one entry per call and entry path.
+func (m *ServerModel) sitesInOrder(root *FuncInfo) []*Site {
+	type ck struct {
+		call  *ast.CallExpr
+		outer *ast.CallExpr
+	}
+	seen := map[ck]bool{}
+	var out []*Site
+	for _, s := range append(append([]*Site{}, m.DB.ByFunc[root]...), m.DB.Deep[root]...) {
+		if s.Call == nil {
+			continue
+		}
+		k := ck{s.Call, nil}
+		if len(s.Inl) > 0 {
+			k.outer = s.Inl[0].Call
+		}
+		if seen[k] {
+			continue
+		}
+		seen[k] = true
+		out = append(out, s)
+	}
+	pos := func(s *Site) (token.Pos, token.Pos) {
+		if len(s.Inl) > 0 {
+			return s.Inl[0].Call.Pos(), s.Call.Pos()
+		}
+		return s.Call.Pos(), 0
+	}
+	sort.SliceStable(out, func(i, j int) bool {
+		a1, a2 := pos(out[i])
+		b1, b2 := pos(out[j])
+		if a1 != b1 {
+			return a1 < b1
+		}
+		return a2 < b2
+	})
+	return out
 }
